@@ -185,7 +185,6 @@ pub fn run_server_stream(
     run_server_stream_tail(cfg, stream, cuts, exp, check_shutdown, Tail::None)
 }
 
-/// deliver `stream` split at `cuts` to a fresh production server session and compare with `exp`
 pub fn run_server_stream_tail(
     cfg: &ServerCfg,
     stream: &[u8],
@@ -194,12 +193,40 @@ pub fn run_server_stream_tail(
     check_shutdown: bool,
     tail: Tail,
 ) -> Vec<(String, String)> {
+    run_server_stream_inject(cfg, stream, cuts, exp, check_shutdown, tail, None)
+}
+
+/// deliver `stream` split at `cuts` to a fresh production server session and compare with `exp`;
+/// `inject` = (chunk index, level): change the decode level through the server handle after
+/// that chunk has been delivered
+pub fn run_server_stream_inject(
+    cfg: &ServerCfg,
+    stream: &[u8],
+    cuts: &[usize],
+    exp: &ServerExpect,
+    check_shutdown: bool,
+    tail: Tail,
+    inject: Option<(usize, (u8, u8, u8))>,
+) -> Vec<(String, String)> {
     let mut out = vec![];
     let mut h = ServerHarness::new(cfg);
     h.settle();
     let mut written: Vec<u8> = vec![];
     let mut calls: Vec<Call> = vec![];
-    for chunk in split(stream, cuts) {
+    for (ci, chunk) in split(stream, cuts).into_iter().enumerate() {
+        if let Some((at, level)) = inject {
+            if at + 1 == ci {
+                if let Some(mut hd) = h.handle.take() {
+                    let level = decode_level(level);
+                    let mut t = Task::new(async move {
+                        let _ = hd.set_decode_level(level).await;
+                        hd
+                    });
+                    crate::sim::run_until_quiescent(&mut [&mut t, &mut h.task], POLL_BUDGET);
+                    h.handle = t.output.take();
+                }
+            }
+        }
         let obs = h.deliver_and_observe(chunk);
         written.extend(obs.written.concat());
         calls.extend(obs.calls);
